@@ -585,7 +585,11 @@ func Nested() *descriptorpb.FileDescriptorProto {
 		NestedType: []*descriptorpb.DescriptorProto{leaf},
 		EnumType:   []*descriptorpb.EnumDescriptorProto{enum("Color", "COLOR_RED", "COLOR_GREEN", "COLOR_BLUE")}}
 	// Outer_Middle (top-level) next to Outer.Middle (nested): Go name collision candidates
-	flat := &descriptorpb.DescriptorProto{Name: proto.String("Outer_Flat"), Field: []*descriptorpb.FieldDescriptorProto{f("o", 1, opt, msgT, ".vc.nest.Other")}}
+	// ... with `reserved` numbers, ranges and names (retired fields): records with these numbers are unknown fields
+	// like any other
+	flat := &descriptorpb.DescriptorProto{Name: proto.String("Outer_Flat"), Field: []*descriptorpb.FieldDescriptorProto{f("o", 1, opt, msgT, ".vc.nest.Other"), f("self", 2, opt, msgT, ".vc.nest.Outer_Flat")},
+		ReservedRange: []*descriptorpb.DescriptorProto_ReservedRange{{Start: proto.Int32(5), End: proto.Int32(8)}, {Start: proto.Int32(10), End: proto.Int32(11)}, {Start: proto.Int32(100), End: proto.Int32(201)}},
+		ReservedName:  []string{"old_name", "older"}}
 	// Resource: nested messages declared before AND after a map field of their parent (the synthetic entry
 	// type sits between them in nested_type), with field / oneof names that collide with
 	// protoreflect.Message methods at both places and one level further down
